@@ -711,6 +711,13 @@ def gen_c02(tier, rng):
                         g = bytearray(fr)
                         g[off] = v
                         ops.append(feed(bytes(g)))
+            # 16-bit length fields at their extreme values (a 16-bit sum of header size + length wraps for 0xFFF0..0xFFFF)
+            for off in (8 + 14, 24 + 4, 24 + 14, 24 + 26, 24 + 36):
+                if off + 2 <= len(fr):
+                    for v in list(range(0xFFEE, 0x10000)) + [0x8000, 0x7FFF, 0xFF00, 0x00FF]:
+                        g = bytearray(fr)
+                        g[off:off + 2] = be(v, 2)
+                        ops.append(feed(bytes(g)))
             tag = "corrupt-fields"
         else:
             for _ in range(20):
